@@ -1589,12 +1589,22 @@ func c14Gen(r *lib.Rng, tier string, i int) lib.Case {
 		// the artifact creation is parked before one of its storage calls (document reads and copies) while the job
 		// goes on: next checkpoint, operators' checkpoints, retention updates (D53 when it hits the document copy)
 		tags = append(tags, "held-creation")
-		ops = append(ops, "dump", fmt.Sprintf("release 0 hold %d", r.Intn(7)), "ckpt")
+		hold := r.Intn(7)
+		if n == 1 && mem == 100000 {
+			hold = r.Intn(4) // read, WAL, document, job snapshot
+		}
+		ops = append(ops, "dump", fmt.Sprintf("release 0 hold %d", hold), "ckpt")
 		writes(r.Intn(6))
+		// Retention updates (which DELETE the WALs of dropped checkpoints) race with the copies only where the operator
+		// checkpoint is a single data file (one operator, state in the WAL only): with several files, whether the
+		// creation fails visibly or succeeds depends on the ORDER in which it copies them, which is not part of the
+		// property (a harmless reordering of ListCheckpointFiles must stay silent). Excluded therefore: deletions
+		// racing with multi-file copies; environment moves that only add (checkpoints, writes) are generated everywhere.
+		singleFile := n == 1 && mem == 100000
 		for o := 0; o < n; o++ {
 			if r.Chance(2, 3) {
 				ops = append(ops, fmt.Sprintf("opck %d", o))
-				if r.Chance(1, 2) {
+				if singleFile && r.Chance(1, 2) {
 					ops = append(ops, fmt.Sprintf("retain %d %d", o, nextID))
 				}
 			}
